@@ -109,7 +109,7 @@ receiver: dereferences `t.Data`), then `values[i]` for every field. -/
 def tupleUnmarshalStruct (fixed : Bool) (len : Nat) (data : Tuple) (numField : Nat) : Outcome Unit :=
   if len ≠ numField then .err "mismatched fields count in tuple and struct"
   else match data with
-    | .nil => if fixed then .err "empty tuple" else .panic "nil pointer dereference"
+    | .nil => if fixed then (if len = 0 then .ok () else .err "tuple has no data") else .panic "nil pointer dereference"
     | d => match d.toSlice len with
       | none => .err "tuple"
       | some vs => (List.range numField).foldlM (fun _ i => index vs.length i) ()
